@@ -96,11 +96,20 @@ def mat(x):
     return np.array([[float(fr(v)) for v in row] for row in x], dtype=float)
 
 
+def _layout(a):
+    """The same values in a memory layout chosen from the values themselves (deterministic): C order, Fortran
+    order or a strided view -- results must not depend on the layout of the caller's arrays."""
+    import random as _random
+    import zlib
+    from ..common import relayout
+    return relayout(a, _random.Random(zlib.crc32(np.ascontiguousarray(a).tobytes())))
+
+
 def make_stat(em, t, n, f):
     st = em.GMMStats(len(n), np.asarray(f).shape[1])
     st.t = int(t)
     st.n = np.array(n, dtype=float)
-    st.sum_px = np.array(f, dtype=float)
+    st.sum_px = _layout(np.array(f, dtype=float))
     return st
 
 
